@@ -100,13 +100,20 @@ def step (st : St) (cmd : String) (m : KV) : Option (St × String) :=
   | "ss.closeStream" => do
     let (sd, isA) ← sideOf st m
     let id ← getNat m "id"
-    let (sd, r) := closeStream sd id st.now st.inact
-    let o := match r with | .ok => "ok" | _ => "repeat"
-    pure (put st isA sd, o ++ " | " ++ stateStr sd)
+    let (sd, r) := closeStream sd id true st.now st.inact
+    let o := match r with | .ok => "ok" | .refused => "err" | _ => "repeat"
+    pure (settle (put st isA sd), o ++ " | " ++ stateStr sd)
+  | "ss.wfault" => do
+    let (sd, isA) ← sideOf st m
+    pure (put st isA { sd with wfail := true }, "ok")
+  | "ss.sendfail" => do   -- a data frame could not be written: send → passiveClose
+    let (sd, isA) ← sideOf st m
+    let (sd, _) := sessClose sd false
+    pure (settle (put st isA sd), stateStr sd)
   | "ss.close" => do
     let (sd, isA) ← sideOf st m
     let (sd, r) := sessClose sd true
-    let o := match r with | .ok => "ok" | _ => "repeat"
+    let o := match r with | .ok => "ok" | .refused => "err" | _ => "repeat"
     pure (settle (put st isA sd), o ++ " | " ++ stateStr sd)
   | "ss.fault" => do   -- a connection of this side reported a read error: passiveClose
     let (sd, isA) ← sideOf st m
